@@ -106,6 +106,30 @@ def _save(ctx, cfg):
             else:
                 ctx.holds("save/nothing written when refused" + t, saved == [])
     ctx.holds("save/no parameter written[%s]" % kind, all(torch.equal(p.detach(), before[(net, n)]) for net in nets for n, p in getattr(st, net).named_parameters()))
+    # history: save, replace / change the parameters in every way the API offers, save again -> the file holds the current ones
+    for how in ("reinitialize_parameters", "in-place update", "load_state_dict", "parameter objects replaced"):
+        if how == "reinitialize_parameters":
+            st.reinitialize_parameters()
+        elif how == "in-place update":
+            with torch.no_grad():
+                for net in nets:
+                    for p in getattr(st, net).parameters():
+                        p.add_(0.25)
+        elif how == "load_state_dict":
+            for net in nets:
+                sd = {k: v.clone() * 2 + 1 for k, v in getattr(st, net).state_dict().items()}
+                getattr(st, net).load_state_dict(sd)
+        else:
+            for net in nets:
+                m_ = getattr(st, net)
+                for n_, p in list(m_.named_parameters()):
+                    setattr(m_, n_, torch.nn.Parameter(p.detach().clone() - 3.0, requires_grad=False))
+        saved = []
+        with mock.patch.object(torch, "save", lambda obj, loc: saved.append((obj, loc))):
+            st.save("LOCATION2", {"a": V[0]})
+        ok = len(saved) == 1 and all(set(saved[0][0][n].keys()) == set(getattr(st, n).state_dict().keys()) and
+                                     all(torch.equal(saved[0][0][n][k], v) for k, v in getattr(st, n).state_dict().items()) for n in nets)
+        ctx.holds("save/after %s a later save writes the current parameters[%s]" % (how, kind), ok)
     if has_ud:
         ctx.holds("save/state's unitary dictionary untouched[%s]" % kind, set(st.unitary_dict.keys()) == set(ud_before.keys()) and all(st.unitary_dict[k] is ud_before[k] for k in ud_before))
 
